@@ -117,12 +117,18 @@ func (st *State) fArith(op token.Token, a, b *Term) *Term {
 	case token.MUL:
 		return st.rnd(ts.rbin(ORMul, ra, rb))
 	case token.QUO:
+		zeroDiv := false
 		if !rb.isConst() {
-			if st.branch(ts.Eq(rb, ts.RealF(0))) {
-				panic(pathEnd{"outside", "division by zero in the real reading (result would be Inf/NaN)"})
-			}
-		} else if rb.r.Sign() == 0 {
-			panic(pathEnd{"outside", "division by zero in the real reading (result would be Inf/NaN)"})
+			zeroDiv = st.branch(ts.Eq(rb, ts.RealF(0)))
+		} else {
+			zeroDiv = rb.r.Sign() == 0
+		}
+		if zeroDiv {
+			// Go yields +-Inf or NaN here, not a panic. The real reading cannot tell which, so the path
+			// continues with NaN as a stand-in and is not claimed (counted as outside the reading):
+			// a violation found further on is still replayed natively, a proof on it is not counted.
+			st.nonFinite = true
+			return ts.F64(math.NaN())
 		}
 		if !rb.isConst() {
 			// division elimination: q with q*b = a (b != 0 on this path)
